@@ -271,6 +271,21 @@ def real_clock_runs(ctx, lab, big):
     jobs.append((long_k, [0, 1, 2], False))
     for k in dense_kernels(ctx, lab, 1 if not big else 5):
         jobs.append((k, [0, 1], False))
+    # a kernel that reaches the line threshold of the multi-process (timed) search only thanks to lines without instructions:
+    # 44 instructions, each reading the two previous results (Fibonacci-many paths), and 12 comment lines
+    pad = ["\taddq\t$1, %rax"]
+    regs = ["%xmm0", "%xmm1"]
+    for i in range(43):
+        a, b = regs[-1], regs[-2]
+        d = "%%xmm%d" % ((i + 2) % 16)
+        pad.append("\tvaddpd\t%s, %s, %s" % (a, b, d))
+        regs.append(d)
+        if i % 4 == 0:
+            pad.append("# stage %d" % i)
+    try:
+        jobs.append((lab.kernel("dense-x86-padded", ARCH_X86, "\n".join(pad) + "\n"), [1], False))
+    except Exception:  # noqa
+        pass
     ordinary = C16.make_kernels(ctx, lab, 3 if not big else 14)
     for k in ordinary:
         jobs.append((k, [0, 1, 2, 50, -1], True))
